@@ -297,6 +297,18 @@ fn machine<G: GroupApi>(run: &Run, depth: usize, pair_depth: usize) -> Reached<G
     Reached { vals }
 }
 
+/// cumulative number of states of the machine up to `depth`, from the bfs explorer's per-depth record
+fn states_up_to<G: GroupApi>(run: &Run, depth: usize) -> Option<u64> {
+    let v = run.summary_json();
+    let d = v["drivers"].as_array()?.iter().find(|d| d["driver"] == format!("c16.{}", G::NAME))?.clone();
+    let mut total = 0;
+    for e in d["per_depth"].as_array()? {
+        if e["depth"].as_u64()? as usize <= depth {
+            total += e["new_states"].as_u64()?;
+        }
+    }
+    Some(total)
+}
 fn run_path<G: GroupApi>(path: &[String]) -> Result<St<G>, Bad> {
     let mut s = init::<G>();
     invariant::<G>(&s)?;
@@ -322,6 +334,20 @@ pub fn run(run: &Run) {
     );
     let r1 = machine::<G1>(run, d1, dp);
     let r2 = machine::<G2>(run, d2, dp);
+    // engine cross-check: the same machine under stateright's BFS checker
+    if run.fail_count() == 0 {
+        let sd = run.tier.pick(5usize, 6).min(d1);
+        let t0 = std::time::Instant::now();
+        let (n, violated) = crate::sr::explore::<G1>(sd);
+        let mine = states_up_to::<G1>(run, sd);
+        run.note("stateright_crosscheck", json!({"machine": "c16.G1", "depth": sd, "stateright_unique_states": n, "bfs_states": mine, "wall_s": t0.elapsed().as_secs_f64()}));
+        if Some(n as u64) != mine {
+            run.machinery_error(format!("engine cross-check: stateright finds {} unique states at depth {}, the bfs explorer {:?}", n, sd, mine));
+        }
+        if violated {
+            run.machinery_error("engine cross-check: stateright reports an invariant violation the bfs explorer did not".into());
+        }
+    }
     if run.fail_count() > 0 {
         // histories already break the property; pairing the reached values adds nothing reliable
         return;
